@@ -14,6 +14,10 @@ CONSTANTS Scripts,      \* sequence: callback k -> [ret, ops]
           Deltas,       \* periods the application may use
           MaxOps, Horizon
 Script(cb) == Scripts[cb]
+\* total time callbacks may keep the job thread busy (the lateness the property allows for)
+RECURSIVE SumBusy(_)
+SumBusy(i) == IF i = 0 THEN 0 ELSE Scripts[i].busy + SumBusy(i - 1)
+Slack == 2 * SumBusy(Len(Scripts))
 Cbs == 1..Len(Scripts)
 
 VARIABLES ts, now, regs, monbad, nops, running
@@ -42,7 +46,7 @@ AppRemove(cb) ==
 RECURSIVE FireAll(_, _, _)
 FireAll(acc, fired, t) ==
     IF fired = <<>> THEN acc
-    ELSE LET m == RegFireS(Script, acc.rg, Head(fired).rid, t, 0, WakeLat) IN
+    ELSE LET m == RegFireS(Script, acc.rg, Head(fired).rid, Head(fired).t, Slack, WakeLat) IN
          FireAll([rg |-> m.rg, bad |-> acc.bad \cup m.bad], Tail(fired), t)
 
 Job ==
@@ -57,7 +61,8 @@ Job ==
           /\ regs' = m.rg
           /\ monbad' = monbad \cup m.bad
           /\ running' = ~r.slept
-    /\ UNCHANGED <<now, nops>>
+    /\ now' = JobPass(Script, IF running THEN ts ELSE IF ts.tok > 0 THEN [ts EXCEPT !.tok = @ - 1, !.su = None] ELSE [ts EXCEPT !.su = None], now).clk
+    /\ UNCHANGED nops
 
 Tick ==
     /\ ~running /\ ts.tok = 0 /\ ts.su # None /\ ts.su > now
@@ -79,10 +84,10 @@ Bound == now <= Horizon
 \* C12: never early, never later than the wake latency, no drift, one-shot once, nothing after removal
 MonOk == monbad = {}
 \* C12: adding, expiring or removing one timer never delays or suppresses another
-NoSuppression == ~OverdueS(regs, now, 0, WakeLat)
+NoSuppression == ~OverdueS(regs, now, Slack, WakeLat)
 \* the job thread never sleeps past a deadline it should serve
 NoOversleep == (~running /\ ts.tok = 0 /\ ts.su # None) =>
-                  \A i \in 1..Len(ts.tms) : ts.su <= ts.tms[i].dl + WakeLat
+                  \A i \in 1..Len(ts.tms) : ts.su <= ts.tms[i].dl + WakeLat \/ ts.tms[i].dl <= now
 \* the monitor's view and the list agree on what is registered
 Agree == ~running => \A rid \in 1..Len(regs) : regs[rid].alive <=> HasRid(ts.tms, rid)
 =============================================================================
